@@ -11,19 +11,29 @@ C10 — Interval slicing partitions the data: each observation in exactly one in
 
 Clause → theorem
   exactly one interval (right-open / left-open / include_max)  rightOpen_partition, leftOpen_partition,
-                                                               includeMax_partition, lastOpen_partition
+                                                               includeMax_partition, max_included_iff
   masks aligned with input positions                           masks_aligned, ppi_mask_aligned
-  boundaries contain members                                   member_within_boundaries
-  boundaries do not overlap (shared edge)                      boundaries_chained
+  boundaries contain members (Width / Number)                  member_within_boundaries
+  boundaries do not overlap (shared edge, Width / Number)      boundaries_chained
+  PointsPerInterval midpoint boundaries contain members,
+  are chained, lower <= upper (hypothesis: chunks ordered)     ppi_boundaries_contain_members, boundsContain_ordered
+  ... and are those of the SURVIVORS after the drop            ppiSlice_survivors
   exactly the small intervals are dropped                      drop_exactly_small, drop_keeps_order
   RuntimeError iff too few                                     too_few_error_iff
+  constructor caps: Number  min_n_intervals -> min(., n_intervals)   number_error_iff_capped, number_no_drop_no_error
+                    PointsPerInterval min_n_points -> min(., n_points)  ppi_kept_iff_capped, ppi_full_chunk_kept
   PointsPerInterval: positions partitioned                     ppi_partition
   the Width / Number slicers' intervals ARE the pairs and masks
   of one edge list (ties the lemmas above to `_slice`)         widthIntervals_spec, numberIntervals_spec
 
-The theorems are over an arbitrary linear order; the only side condition on the actual
-doubles is that the edge list is sorted (`List.Pairwise (· ≤ ·)`), which the harness
-evaluates on the edges the real code reports, for every configuration it explores.
+The theorems are over an arbitrary linear order (the midpoint theorem: linearly ordered field); the side
+conditions on the actual doubles are that the edge list is sorted (`List.Pairwise (· ≤ ·)`), resp. that
+PointsPerInterval chunks are ordered (`chunksOrdered`, what np.argsort gives) - both are evaluated by the
+harness on what the real code reports, for every configuration it explores. NOT proven here: that the
+Width edge list `arange(lower, upper + width, width) ++ [last + width]` reaches beyond `upper` in floating
+point (the harness checks the configured range `[lower, upper]` is covered on every explored case:
+`configured_range_covered_exactly_once`), and that `(max + min)/2` of two doubles lies between them
+(checked on the reported boundaries: `boundaries_contain_members`, `boundaries_overlap`).
 -/
 import VirVerif.Model.Slicers
 import Mathlib.Order.Basic
@@ -33,6 +43,9 @@ import Mathlib.Data.List.Count
 import Mathlib.Data.List.Nodup
 import Mathlib.Data.List.Perm.Basic
 import Mathlib.Tactic.Linarith
+import Mathlib.Algebra.Order.Field.Basic
+import Mathlib.Algebra.Order.Ring.Rat
+import Mathlib.Tactic.NormNum
 
 namespace VirVerif.C10
 open VirVerif
@@ -334,6 +347,303 @@ theorem ppi_mask_aligned (n : Nat) (chunk : List Nat) (j : Nat) (hj : j < n) :
     (chunkMask n chunk)[j]'(by simp [chunkMask, hj]) = chunk.contains j := by
   simp [chunkMask]
 
+/-! ### constructor caps: the effective thresholds
+
+`NumberOfIntervalsSlicer.__init__` lowers `min_n_intervals` to `n_intervals`, `PointsPerIntervalSlicer.__init__`
+lowers `min_n_points` to `n_points`. The model applies `min …` inside `numberSliceF` / `ppiSlice`; the theorems
+below say what that means for the drop rule and the error. (The harness computes the same effective thresholds
+from the configuration alone and evaluates drop rule and error on the real slicers' output.) -/
+
+/-- pre-drop intervals of the Number slicer model for an explicit range -/
+def numberPreDrop (n : Nat) (im : Bool) (ref : RefKind) (a b : Float) (data : List Float) :
+    List (Interval Float) :=
+  numberIntervalsOfStarts im ref (linspaceNoEnd a b n).2 (0.5 * (linspaceNoEnd a b n).2) b
+    (linspaceNoEnd a b n).1 data
+
+theorem numberSliceF_eq (n : Nat) (im : Bool) (ref : RefKind) (a b : Float) (mp mi : Nat)
+    (data : List Float) :
+    numberSliceF n im ref (some (a, b)) mp mi data =
+      finishSlice (min mi n) (dropSmall mp (numberPreDrop n im ref a b data)) := rfl
+
+/-- **NumberOfIntervalsSlicer, capped `min_n_intervals`**: the error is raised iff the number of surviving
+intervals is below BOTH `min_n_intervals` and `n_intervals` (i.e. below their minimum). -/
+theorem number_error_iff_capped (n : Nat) (im : Bool) (ref : RefKind) (a b : Float) (mp mi : Nat)
+    (data : List Float) :
+    (∃ need got, numberSliceF n im ref (some (a, b)) mp mi data = .error (.tooFewIntervals need got)) ↔
+      (dropSmall mp (numberPreDrop n im ref a b data)).length < mi ∧
+      (dropSmall mp (numberPreDrop n im ref a b data)).length < n := by
+  rw [numberSliceF_eq]
+  unfold finishSlice
+  by_cases h : (dropSmall mp (numberPreDrop n im ref a b data)).length < min mi n
+  · rw [if_pos h]
+    exact ⟨fun _ => lt_min_iff.mp h, fun _ => ⟨_, _, rfl⟩⟩
+  · rw [if_neg h]
+    constructor
+    · rintro ⟨_, _, hh⟩; cases hh
+    · intro hh; exact absurd (lt_min_iff.mpr hh) h
+
+theorem ivPreds_length_gen {γ : Type} [LE γ] [LT γ] [DecidableLE γ] [DecidableLT γ]
+    (lc hc lhc : Bool) (pairs : List (γ × γ)) :
+    (ivPreds lc hc lhc pairs).length = pairs.length := by
+  induction pairs with
+  | nil => rfl
+  | cons p rest ih =>
+    obtain ⟨lo, hi⟩ := p
+    cases rest with
+    | nil => rfl
+    | cons q rest' => simp only [ivPreds, List.length_cons] at ih ⊢; omega
+
+theorem numberIntervalsOfStarts_length {γ : Type} [LE γ] [LT γ] [DecidableLE γ] [DecidableLT γ] [Add γ]
+    (im : Bool) (ref : RefKind) (w hw upper : γ) (starts data : List γ) :
+    (numberIntervalsOfStarts im ref w hw upper starts data).length = starts.length := by
+  unfold numberIntervalsOfStarts
+  cases starts with
+  | nil => simp [edgePairs, edgeMasks, ivPreds]
+  | cons s rest => simp [edgeMasks, ivPreds_length_gen, edgePairs_length]
+
+theorem numberPreDrop_length (n : Nat) (im : Bool) (ref : RefKind) (a b : Float) (data : List Float) :
+    (numberPreDrop n im ref a b data).length = n := by
+  unfold numberPreDrop
+  rw [numberIntervalsOfStarts_length]
+  simp [linspaceNoEnd]
+
+/-- the purpose of the cap: when no interval is dropped (`min_n_points = 0`) the Number slicer never raises,
+whatever `min_n_intervals` was asked for. -/
+theorem number_no_drop_no_error (n : Nat) (im : Bool) (ref : RefKind) (a b : Float) (mi : Nat)
+    (data : List Float) :
+    numberSliceF n im ref (some (a, b)) 0 mi data = .ok (numberPreDrop n im ref a b data) := by
+  rw [numberSliceF_eq]
+  have hd : dropSmall 0 (numberPreDrop n im ref a b data) = numberPreDrop n im ref a b data := by
+    simp [dropSmall]
+  rw [hd]
+  unfold finishSlice
+  rw [if_neg]
+  rw [numberPreDrop_length]
+  exact not_lt.mpr (min_le_right _ _)
+
+/-- masks the PointsPerInterval model keeps: threshold `min(min_n_points, n_points)` -/
+def ppiKept (nPoints minPts : Nat) (masks : List (List Bool)) : List (List Bool) :=
+  masks.filter fun m => decide (min minPts nPoints ≤ maskCount m)
+
+/-- **PointsPerIntervalSlicer, capped `min_n_points`**: a chunk survives iff it has at least `min_n_points`
+OR at least `n_points` members; in particular a full chunk (`n_points` members) always survives. -/
+theorem ppi_kept_iff_capped (nPoints minPts : Nat) (masks : List (List Bool)) (m : List Bool) :
+    m ∈ ppiKept nPoints minPts masks ↔
+      m ∈ masks ∧ (minPts ≤ maskCount m ∨ nPoints ≤ maskCount m) := by
+  simp [ppiKept, List.mem_filter]
+
+theorem ppi_full_chunk_kept (nPoints minPts : Nat) (masks : List (List Bool)) (m : List Bool)
+    (hm : m ∈ masks) (hfull : maskCount m = nPoints) : m ∈ ppiKept nPoints minPts masks :=
+  (ppi_kept_iff_capped nPoints minPts masks m).mpr ⟨hm, Or.inr (le_of_eq hfull.symm)⟩
+
+theorem ppiKept_sublist (nPoints minPts : Nat) (masks : List (List Bool)) :
+    List.Sublist (ppiKept nPoints minPts masks) masks := by
+  simp [ppiKept]
+
+/-! ### PointsPerIntervalSlicer: the midpoint boundaries (computed AFTER the drop, from the survivors) -/
+
+section ppiBoundaries
+variable {β : Type} [Field β] [LinearOrder β] [IsStrictOrderedRing β]
+
+/-- consecutive member lists are ordered: nothing in a chunk exceeds anything in the next chunk
+(what sorting gives; the harness evaluates it on the real masks: `ppi_chunks_sorted`). -/
+def chunksOrdered : List (List β) → Prop
+  | a :: b :: rest => (∀ x ∈ a, ∀ y ∈ b, x ≤ y) ∧ chunksOrdered (b :: rest)
+  | _ => True
+
+/-- upper boundary of an interval = lower boundary of the next -/
+def boundsChained : List (β × β) → Prop
+  | p :: q :: rest => p.2 = q.1 ∧ boundsChained (q :: rest)
+  | _ => True
+
+/-- boundaries `k` contain all members of interval `k` (and there are as many boundaries as intervals) -/
+def boundsContain : List (β × β) → List (List β) → Prop
+  | b :: bs, m :: ms => (∀ x ∈ m, b.1 ≤ x ∧ x ≤ b.2) ∧ boundsContain bs ms
+  | [], [] => True
+  | _, _ => False
+
+omit [Field β] [IsStrictOrderedRing β] in
+theorem foldl_max_spec (xs : List β) (x r : β)
+    (h : xs.foldl (fun m y => if m < y then y else m) x = r) :
+    r ∈ x :: xs ∧ ∀ y ∈ x :: xs, y ≤ r := by
+  induction xs generalizing x with
+  | nil => simp at h; subst h; simp
+  | cons a rest ih =>
+    rw [List.foldl_cons] at h
+    obtain ⟨hm, hle⟩ := ih _ h
+    have hx : x ≤ (if x < a then a else x) := by
+      by_cases hxa : x < a
+      · rw [if_pos hxa]; exact le_of_lt hxa
+      · rw [if_neg hxa]
+    have ha : a ≤ (if x < a then a else x) := by
+      by_cases hxa : x < a
+      · rw [if_pos hxa]
+      · rw [if_neg hxa]; exact not_lt.mp hxa
+    have hmem : (if x < a then a else x) ∈ x :: a :: rest := by
+      by_cases hxa : x < a
+      · rw [if_pos hxa]; simp
+      · rw [if_neg hxa]; simp
+    refine ⟨?_, ?_⟩
+    · rcases List.mem_cons.mp hm with hm | hm
+      · rw [hm]; exact hmem
+      · exact List.mem_cons_of_mem _ (List.mem_cons_of_mem _ hm)
+    · intro y hy
+      have h0 := hle _ (List.mem_cons_self)
+      rcases List.mem_cons.mp hy with rfl | hy
+      · exact le_trans hx h0
+      · rcases List.mem_cons.mp hy with rfl | hy
+        · exact le_trans ha h0
+        · exact hle _ (List.mem_cons_of_mem _ hy)
+
+omit [Field β] [IsStrictOrderedRing β] in
+theorem foldl_min_spec (xs : List β) (x r : β)
+    (h : xs.foldl (fun m y => if y < m then y else m) x = r) :
+    r ∈ x :: xs ∧ ∀ y ∈ x :: xs, r ≤ y := by
+  induction xs generalizing x with
+  | nil => simp at h; subst h; simp
+  | cons a rest ih =>
+    rw [List.foldl_cons] at h
+    obtain ⟨hm, hle⟩ := ih _ h
+    have hx : (if a < x then a else x) ≤ x := by
+      by_cases hxa : a < x
+      · rw [if_pos hxa]; exact le_of_lt hxa
+      · rw [if_neg hxa]
+    have ha : (if a < x then a else x) ≤ a := by
+      by_cases hxa : a < x
+      · rw [if_pos hxa]
+      · rw [if_neg hxa]; exact not_lt.mp hxa
+    have hmem : (if a < x then a else x) ∈ x :: a :: rest := by
+      by_cases hxa : a < x
+      · rw [if_pos hxa]; simp
+      · rw [if_neg hxa]; simp
+    refine ⟨?_, ?_⟩
+    · rcases List.mem_cons.mp hm with hm | hm
+      · rw [hm]; exact hmem
+      · exact List.mem_cons_of_mem _ (List.mem_cons_of_mem _ hm)
+    · intro y hy
+      have h0 := hle _ (List.mem_cons_self)
+      rcases List.mem_cons.mp hy with rfl | hy
+      · exact le_trans h0 hx
+      · rcases List.mem_cons.mp hy with rfl | hy
+        · exact le_trans h0 ha
+        · exact hle _ (List.mem_cons_of_mem _ hy)
+
+omit [Field β] [IsStrictOrderedRing β] in
+theorem listMax_spec (l : List β) (m : β) (h : listMax l = some m) : m ∈ l ∧ ∀ y ∈ l, y ≤ m := by
+  cases l with
+  | nil => simp [listMax] at h
+  | cons x xs =>
+    simp only [listMax, Option.some.injEq] at h
+    exact foldl_max_spec xs x m h
+
+omit [Field β] [IsStrictOrderedRing β] in
+theorem listMin_spec (l : List β) (m : β) (h : listMin l = some m) : m ∈ l ∧ ∀ y ∈ l, m ≤ y := by
+  cases l with
+  | nil => simp [listMin] at h
+  | cons x xs =>
+    simp only [listMin, Option.some.injEq] at h
+    exact foldl_min_spec xs x m h
+
+/-- the loop of `PointsPerIntervalSlicer._slice` that computes the boundaries: started with a lower boundary
+that is below all members of the current interval, on ordered chunks it returns boundaries that start with
+that lower boundary, are chained, and contain their members. -/
+theorem ppiBoundsAux_spec (rest : List (List β)) (lower : β) (cur : List β) (bs : List (β × β))
+    (h : ppiBoundsAux lower cur rest = some bs)
+    (hlow : ∀ x ∈ cur, lower ≤ x)
+    (hord : chunksOrdered (cur :: rest)) :
+    (∃ hi tl, bs = (lower, hi) :: tl) ∧ boundsChained bs ∧ boundsContain bs (cur :: rest) := by
+  induction rest generalizing lower cur bs with
+  | nil =>
+    simp only [ppiBoundsAux, Option.map_eq_some_iff] at h
+    obtain ⟨m, hm, rfl⟩ := h
+    have hs := listMax_spec cur m hm
+    exact ⟨⟨m, [], rfl⟩, trivial, ⟨fun x hx => ⟨hlow x hx, hs.2 x hx⟩, trivial⟩⟩
+  | cons nxt rest ih =>
+    unfold ppiBoundsAux at h
+    cases hmx : listMax cur with
+    | none => rw [hmx] at h; cases h
+    | some mx =>
+      cases hmn : listMin nxt with
+      | none => rw [hmx, hmn] at h; cases h
+      | some mn =>
+        rw [hmx, hmn] at h
+        simp only [Option.map_eq_some_iff] at h
+        obtain ⟨t, ht, rfl⟩ := h
+        have hsx := listMax_spec cur mx hmx
+        have hsn := listMin_spec nxt mn hmn
+        have hmxmn : mx ≤ mn := hord.1 mx hsx.1 mn hsn.1
+        have hup1 : mx ≤ (mx + mn) / 2 := by linarith
+        have hup2 : (mx + mn) / 2 ≤ mn := by linarith
+        obtain ⟨⟨hi, tl, rfl⟩, hch, hct⟩ :=
+          ih ((mx + mn) / 2) nxt t ht (fun y hy => le_trans hup2 (hsn.2 y hy)) hord.2
+        refine ⟨⟨_, _, rfl⟩, ⟨rfl, hch⟩, ⟨fun x hx => ⟨hlow x hx, le_trans (hsx.2 x hx) hup1⟩, hct⟩⟩
+
+/-- **PointsPerInterval boundaries contain their interval's members and do not overlap**: for ordered
+(sorted) chunks, whenever the code's boundary computation succeeds, boundary pair `k` contains every member
+of interval `k`, and the upper boundary of interval `k` IS the lower boundary of interval `k+1`. -/
+theorem ppi_boundaries_contain_members (members : List (List β)) (bs : List (β × β))
+    (h : ppiBounds members = some bs) (hord : chunksOrdered members) :
+    boundsContain bs members ∧ boundsChained bs := by
+  cases members with
+  | nil => simp [ppiBounds] at h
+  | cons first rest =>
+    simp only [ppiBounds, Option.bind_eq_some_iff] at h
+    obtain ⟨lo, hlo, haux⟩ := h
+    have hs := listMin_spec first lo hlo
+    obtain ⟨_, hch, hct⟩ := ppiBoundsAux_spec rest lo first bs haux hs.2 hord
+    exact ⟨hct, hch⟩
+
+omit [Field β] [IsStrictOrderedRing β] in
+/-- containment gives `lower ≤ upper` for every non-empty interval; with `boundsChained` this is
+"do not overlap". -/
+theorem boundsContain_ordered (bs : List (β × β)) (members : List (List β))
+    (h : boundsContain bs members) (hne : ∀ m ∈ members, m ≠ []) : ∀ b ∈ bs, b.1 ≤ b.2 := by
+  induction bs generalizing members with
+  | nil => intro b hb; cases hb
+  | cons b0 bs ih =>
+    cases members with
+    | nil => exact absurd h (by simp [boundsContain])
+    | cons m ms =>
+      obtain ⟨h0, hrest⟩ := h
+      intro b hb
+      rcases List.mem_cons.mp hb with rfl | hb
+      · obtain ⟨x, hx⟩ := List.exists_mem_of_ne_nil m (hne m (List.mem_cons_self))
+        exact le_trans (h0 x hx).1 (h0 x hx).2
+      · exact ih ms hrest (fun m' hm' => hne m' (List.mem_cons_of_mem _ hm')) b hb
+
+omit [IsStrictOrderedRing β] in
+/-- **what `ppiSlice` returns after the drop belongs to the survivors**: whenever it returns intervals,
+these are exactly the kept masks (threshold `min(min_n_points, n_points)`, `ppi_kept_iff_capped`) zipped with
+`ppiBounds` of the SURVIVORS' members - so `ppi_boundaries_contain_members` is a statement about the
+boundaries returned after the drop. -/
+theorem ppiSlice_survivors (nP : Nat) (lf : Bool) (mp mi : Nat) (perm : List Nat) (data : List β)
+    (ivs : List (Interval β)) (h : ppiSlice nP lf mp mi perm data = .ok ivs) :
+    ∃ bounds,
+      ppiBounds ((ppiKept nP mp ((ppiChunks nP lf perm).map (chunkMask data.length))).map
+        fun m => maskSelect m data) = some bounds ∧
+      ivs = ((ppiKept nP mp ((ppiChunks nP lf perm).map (chunkMask data.length))).zip bounds).map
+        (fun x => { mask := x.1, ref := none, lo := x.2.1, hi := x.2.2 }) ∧
+      ¬ ivs.length < mi := by
+  unfold ppiSlice at h
+  split at h
+  · cases h
+  · split at h
+    · cases h
+    · simp only at h
+      split at h
+      · cases h
+      · rename_i bounds hb
+        refine ⟨bounds, hb, ?_⟩
+        unfold finishSlice at h
+        split at h
+        · cases h
+        · rename_i hlen
+          injection h with h
+          subst h
+          exact ⟨rfl, hlen⟩
+
+end ppiBoundaries
+
 /-! ### non-vacuity: concrete edges and data meeting the hypotheses -/
 
 example : memberCount (ivPreds true false false (edgePairs ([0, 1, 2, 3] : List Int))) 2 = 1 := by decide
@@ -343,6 +653,15 @@ example : memberCount (ivPreds false true true (edgePairs ([0, 1, 2, 3] : List I
 example : List.Pairwise (· ≤ ·) ([0, 1, 2, 3] : List Int) := by decide
 example : ppiChunks 2 true [5, 1, 3, 4, 2, 0, 6] = [[5], [1, 3], [4, 2], [0, 6]] := by decide
 example : List.Perm [5, 1, 3, 4, 2, 0, 6] (List.range 7) := by decide
+
+-- PointsPerInterval boundaries: sorted chunks with a tie across the chunk border
+example : ppiBounds ([[1, 2], [2, 4], [5]] : List (List ℚ)) = some [(1, 2), (2, 9 / 2), (9 / 2, 5)] := by
+  norm_num [ppiBounds, ppiBoundsAux, listMin, listMax]
+example : chunksOrdered ([[1, 2], [2, 4], [5]] : List (List ℚ)) := by
+  norm_num [chunksOrdered]
+-- caps: 2 intervals asked for, min_n_intervals 3 -> threshold 2; n_points 2, min_n_points 50 -> a full chunk stays
+example : min 3 2 = 2 := by decide
+example : [true, true, false] ∈ ppiKept 2 50 [[true, true, false], [false, false, true]] := by decide
 
 /-- what goes wrong without a shared edge array (the code before the repair): with a gap
 between `hi k` and `lo (k+1)` a value on the lower edge is in *no* interval, with an overlap
